@@ -85,10 +85,9 @@ def isZeroBits (w : UInt64) : Bool := w.toNat % 2 ^ 63 == 0
     (`FloatRound.roundRat i 1`: `Props/FloatRound.lean` proves it exact on representable integers, nearest,
     monotone); `OverflowError` when the rounded value is `2^1024` or more, i.e. from `2^1024 - 2^970` on -/
 def toFloat (i : Int) : Except Err UInt64 :=
-  match FloatRound.roundRat i 1 with
-  | .ok w => .ok w
-  | .overflow _ => .error .overflow
-  | .zeroDen => .error .internal      -- unreachable: the denominator is 1 (`Props/C15.toFloat_err`)
+  match FloatRound.floatOfInt i with
+  | some w => .ok w
+  | none => .error .overflow
 
 /-- C `fmod(x, y)` for `y` not zero: exact, sign of `x` -/
 def fmodBits (x y : UInt64) : UInt64 :=
